@@ -1082,10 +1082,14 @@ def _eq(val1, val2) -> float:
         pass
     if is_numeric(val1) and is_numeric(val2):
         return _positive_distance(lambda: float(abs(val1 - val2)))
+    # The operands are not equal, even if their contents are (a subclass may define
+    # its own equality), thus the distance must not be zero.
     if is_string(val1) and is_string(val2):
-        return string_distance(val1, val2)
+        return _positive_distance(lambda: string_distance(val1, val2))
     if is_bytes(val1) and is_bytes(val2):
-        return string_distance(val1.decode("iso-8859-1"), val2.decode("iso-8859-1"))
+        return _positive_distance(
+            lambda: string_distance(val1.decode("iso-8859-1"), val2.decode("iso-8859-1"))
+        )
     return inf
 
 
@@ -1116,12 +1120,27 @@ def _lt(val1, val2) -> float:
     """
     if val1 < val2:
         return 0.0
+    return _lt_distance(val1, val2)
+
+
+def _lt_distance(val1, val2) -> float:
+    """Distance to `val1 < val2` for operands for which it does not hold.
+
+    Args:
+        val1: the first value
+        val2: the second value
+
+    Returns:
+        the positive distance
+    """
     if is_numeric(val1) and is_numeric(val2):
         return _positive_distance(lambda: (float(val1) - float(val2)) + 1.0)
     if is_string(val1) and is_string(val2):
-        return string_lt_distance(val1, val2)
+        return _positive_distance(lambda: string_lt_distance(val1, val2))
     if is_bytes(val1) and is_bytes(val2):
-        return string_lt_distance(val1.decode("iso-8859-1"), val2.decode("iso-8859-1"))
+        return _positive_distance(
+            lambda: string_lt_distance(val1.decode("iso-8859-1"), val2.decode("iso-8859-1"))
+        )
     return inf
 
 
@@ -1137,13 +1156,62 @@ def _le(val1, val2) -> float:
     """
     if val1 <= val2:
         return 0.0
+    return _le_distance(val1, val2)
+
+
+def _le_distance(val1, val2) -> float:
+    """Distance to `val1 <= val2` for operands for which it does not hold.
+
+    Args:
+        val1: the first value
+        val2: the second value
+
+    Returns:
+        the positive distance
+    """
     if is_numeric(val1) and is_numeric(val2):
         return _positive_distance(lambda: float(val1) - float(val2))
     if is_string(val1) and is_string(val2):
-        return string_le_distance(val1, val2)
+        return _positive_distance(lambda: string_le_distance(val1, val2))
     if is_bytes(val1) and is_bytes(val2):
-        return string_le_distance(val1.decode("iso-8859-1"), val2.decode("iso-8859-1"))
+        return _positive_distance(
+            lambda: string_le_distance(val1.decode("iso-8859-1"), val2.decode("iso-8859-1"))
+        )
     return inf
+
+
+def _gt(val1, val2) -> float:
+    """Distance computation for '>'.
+
+    The operator is evaluated as the module under test evaluates it: for operands
+    with a partial rich-comparison protocol `val1 > val2` and the reflected
+    `val2 < val1` need not agree.
+
+    Args:
+        val1: the first value
+        val2: the second value
+
+    Returns:
+        the distance
+    """
+    if val1 > val2:
+        return 0.0
+    return _lt_distance(val2, val1)
+
+
+def _ge(val1, val2) -> float:
+    """Distance computation for '>='.
+
+    Args:
+        val1: the first value
+        val2: the second value
+
+    Returns:
+        the distance
+    """
+    if val1 >= val2:
+        return 0.0
+    return _le_distance(val2, val1)
 
 
 def _in(val1, val2) -> float:
@@ -1171,8 +1239,12 @@ def _in(val1, val2) -> float:
     if not isinstance(val2, Iterable):
         return inf
 
-    # Use the shortest distance to any element of the iterable.
-    return min([_eq(val1, v) for v in val2] + [inf])
+    # Use the shortest distance to any element of the iterable. The element is not
+    # in the container, whatever the iteration yields (or raises).
+    try:
+        return _positive_distance(lambda: min([_eq(val1, v) for v in val2] + [inf]))
+    except Exception:  # noqa: BLE001
+        return inf
 
 
 def _nin(val1, val2) -> float:
@@ -1395,12 +1467,12 @@ class ExecutionTracer(AbstractExecutionTracer):  # noqa: PLR0904
                     )
                 case PynguinCompare.GT:
                     distance_true, distance_false = (
-                        _lt(value2, value1),
+                        _gt(value1, value2),
                         _complement(_le, value1, value2),
                     )
                 case PynguinCompare.GE:
                     distance_true, distance_false = (
-                        _le(value2, value1),
+                        _ge(value1, value2),
                         _complement(_lt, value1, value2),
                     )
                 case PynguinCompare.IN:
